@@ -82,6 +82,10 @@ func (r *receivingConnProvider) NewConnection() (net.Conn, error) {
 	// Log a nicer message when shutting down normally
 	if r.lifetime.Err() != nil {
 		r.logger.Info("Listener cancelled due to shutdown")
+		if conn != nil {
+			// Accept won the race against the shutdown: the connection is ours and is not going to be used
+			_ = conn.Close()
+		}
 		return nil, r.lifetime.Err()
 	}
 	if err != nil {
